@@ -380,6 +380,11 @@ func checkPlain(pc PlainCase) (key, msg string, out uint64) {
 		return "", "", core.Hash64(first)
 	case "purity":
 		s := pc.Spec.Build()
+		// definitions and a cue whose optional parts are absent: a writer must not fill them in
+		s.Styles["zz-bare"] = &astisub.Style{ID: "zz-bare"}
+		s.Regions["zz-bare"] = &astisub.Region{ID: "zz-bare"}
+		s.Items = append(s.Items, &astisub.Item{StartAt: 7 * time.Second, EndAt: 8 * time.Second, Style: s.Styles["zz-bare"], Region: s.Regions["zz-bare"],
+			Lines: []astisub.Line{{Items: []astisub.LineItem{{Text: "bare", Style: s.Styles["zz-bare"]}}}}})
 		before := purity.Snapshot(s)
 		var b bytes.Buffer
 		corpus.Write(pc.Writer, s, &b)
